@@ -42,6 +42,9 @@ SHAPES = {
     "multiline": ["e(%(k)d,\n   1)", "\n  e(%(k)d)\n", "e(\n%(k)d\n)"],
     # the very same expression text at every occurrence: each occurrence is an evaluation of its own
     "samecall": ["e(77)"],
+    # text that reads like character references inside a string literal of the expression; text mode only: there is no
+    # markup layer there, the literal is what is written
+    "strent": ["e(%(k)d) + %(q)s&amp;lt;%(q)s", "e(%(k)d) + %(q)s &#38; &lt;b&gt;%(q)s"],
 }
 
 
@@ -59,6 +62,8 @@ def shape_value(shape, k):
     if shape == "samecall":
         return "v77"
     v = "v%d" % k
+    if shape == "strent":
+        return None      # (depends on the drawn text: see strent_value)
     if shape == "stringexpr":
         return "a" + v + "b"
     return v
@@ -206,6 +211,10 @@ def expected(rec, beh, exprs, CH=CH):
             else:
                 out += CH[c]
         elif a["a"] == "val":
+            if rec["parts"][a["j"] - 1]["s"] == "strent":
+                # the literal of the drawn text, as written
+                out += "v%d" % a["j"] + exprs[a["j"]].split(" + ", 1)[1][1:-1]
+                continue
             out += shape_value(rec["parts"][a["j"] - 1]["s"], a["j"])
         else:
             out += "{" + exprs[a["j"]] + "}"
